@@ -81,3 +81,77 @@ Proof. exact ex_run. Qed.
 
 (* all 140 interleavings of two requests with a reset are evaluated in
    Proofs.C32.ex_all_schedules (kept there: re-checking it here by conversion is slow) *)
+
+(* ---------- the reload decision judged by Check.C32.CReload ----------
+   [routes_differ] compares the two flattened route lists ((field path, printed value) pairs, every
+   exported field of every route).  It ignores nothing: *)
+From Verif Require Import Check.C32 Proofs.C32_Reload.
+
+Theorem C32_routes_differ_sound_complete : forall r1 r2,
+  (routes_differ r1 r2 = true <-> r1 <> r2) /\ (routes_differ r1 r2 = false <-> r1 = r2).
+Proof. exact routes_differ_sound_complete. Qed.
+Print Assumptions C32_routes_differ_sound_complete.
+
+(* [reload_step r1 r2] = reset (cache cleared, generation advanced) iff the routes differ.
+   If they do not differ the cache state is unchanged: *)
+Theorem C32_reload_unchanged : forall r1 r2 s,
+  routes_differ r1 r2 = false -> reload_step r1 r2 s = s.
+Proof. exact reload_unchanged. Qed.
+Print Assumptions C32_reload_unchanged.
+
+(* If they differ, then from any state satisfying the invariant (every reachable state does):
+   every key misses right after the reload, the generation has advanced, and after ANY further steps
+   [es] - new requests for any key, and completions of loads that were already in flight when the
+   reload happened (the generation guard keeps them out of the cache) - every answer to a request
+   that started after the reload carries a value whose fetch started after the reload.  This is a
+   corollary of C32_invariant / C32_no_stale_after_reset with the reload's time as the reset. *)
+Theorem C32_reload_no_stale : forall r1 r2 s,
+  Inv s -> routes_differ r1 r2 = true ->
+  let s1 := reload_step r1 r2 s in
+  (forall k, fst (live s1 k) = None)
+  /\ gen s1 = gen s + 1
+  /\ forall es r, In r (responses (fold_left step es s1)) -> r_val r <> None ->
+       time s < r_req_start r -> time s < r_fetch_start r.
+Proof. exact reload_no_stale. Qed.
+Print Assumptions C32_reload_no_stale.
+
+Theorem C32_reload_no_stale_reachable : forall r1 r2 h,
+  routes_differ r1 r2 = true ->
+  let s := fold_left step h init in
+  let s1 := reload_step r1 r2 s in
+  (forall k, fst (live s1 k) = None)
+  /\ forall es r, In r (responses (fold_left step es s1)) -> r_val r <> None ->
+       time s < r_req_start r -> time s < r_fetch_start r.
+Proof. exact reload_no_stale_reachable. Qed.
+Print Assumptions C32_reload_no_stale_reachable.
+
+(* the judge's decision is this very predicate: a reload case whose second ping was served from
+   the cache is a violation exactly when the two route lists are not the same list *)
+Theorem C32_reload_judge_decision : forall f ra rb g0 g1,
+  judge (CReload f ra rb g0 g1 false) = Base.Verdict.VViolation <-> ra <> rb.
+Proof.
+  intros f ra rb g0 g1. destruct (routes_differ_sound_complete ra rb) as [[A1 A2] [B1 B2]].
+  unfold routes_differ in *. unfold judge. destruct (beq_routes ra rb); cbn [negb andb].
+  - split; [|intro H; exfalso; apply H; now apply B1].
+    destruct (reload_model false g0) as [mf mg].
+    destruct (Bool.eqb false mf && (g1 =? mg)); intro H; discriminate H.
+  - split; [intros _; now apply A1|reflexivity].
+Qed.
+Print Assumptions C32_reload_judge_decision.
+
+(* non-vacuity: routes differing only in ModifyVirtualHost differ; a load in flight across the
+   reload completes afterwards and the request started after the reload is NOT answered with it
+   (it is parked); without a difference the same request is answered from the cache *)
+Example C32_nonvacuous_reload :
+  routes_differ [route_mvh false] [route_mvh true] = true
+  /\ routes_differ [route_mvh true] [route_mvh true] = false
+  /\ (let s := fold_left step [ECs1 0 kA 3; EDoChan 0] init in
+      let after := fold_left step [EComplete 0 true; ECs1 1 kA 3]
+                     (reload_step [route_mvh false] [route_mvh true] s) in
+      map (fun r => (r_id r, r_val r)) (responses after) = [(0, Some (0, true))]
+      /\ map p_id (parked after) = [1])
+  /\ (let s := fold_left step [ECs1 0 kA 3; EDoChan 0] init in
+      let after := fold_left step [EComplete 0 true; ECs1 1 kA 3]
+                     (reload_step [route_mvh true] [route_mvh true] s) in
+      map (fun r => (r_id r, r_val r)) (responses after) = [(0, Some (0, true)); (1, Some (0, true))]).
+Proof. exact reload_example. Qed.
